@@ -16,6 +16,12 @@ CHECKS = {
         note="Trusted: z3, CPython, forksym proxies and ReShim (every path's model is replayed on the unshimmed code with the real "
              "UploadFile and must agree). Content bytes are solver variables (<=3 quick / <=5 thorough per form); form templates, "
              "boundaries, part names and cut positions are enumerated recipes; framing uses CRLF; field text is ASCII."),
+    "C02": dict(
+        technique="fork-on-branch symbolic execution of the real WSGI/ASGI FileResponse (incl. zero-copy branch) on a symbolic file: size, chunk size and all Range numbers are z3 integers",
+        design_ref="DESIGN.md §4 C02",
+        note="Trusted: z3, CPython, forksym proxies; the file is an uninterpreted array (reads return (offset,length) slices; no short reads). "
+             "Family 'data': all numbers unbounded, <=2/<=3 range specs, chunk loops unwound K=3/4 with unwinding assertion. Family 'framing': "
+             "multipart Content-Length digit-exact for sizes <10^4 / <10^6. Every path's model is re-run on a real temp file with the unshimmed code."),
     "C03": dict(
         technique="fork-on-branch symbolic execution of the real parse_range with z3 (unbounded LIA integers; ReShim-interpreted regex over symbolic Latin-1 chars)",
         design_ref="DESIGN.md §4 C03",
